@@ -283,7 +283,13 @@ async fn send(addr: &Addr<NamingActor>, cmd: NamingCmd) -> Result<NamingResult, 
 async fn run_case(case: Value) -> Value {
     let cfg = &case["cfg"];
     let mut now: i64 = cfg["t0"].as_i64().unwrap_or(1_000_000);
-    clock::set(now);
+    // "real": no clock override, ticks are real sleeps (the wall-clock part of C13)
+    let real = cfg["real"].as_bool().unwrap_or(false);
+    if real {
+        clock::clear();
+    } else {
+        clock::set(now);
+    }
     let addr = NamingActor::new().start_here();
     let _ = addr
         .send(VerifNamingReq::SetConfig(
@@ -295,6 +301,7 @@ async fn run_case(case: Value) -> Value {
         ))
         .await;
     let dump_all = case["dump"].as_str().unwrap_or("all") == "all";
+    let dump_none = case["dump"].as_str().unwrap_or("all") == "none";
     let mut times: BTreeSet<u64> = BTreeSet::new();
     let sto = cfg["s"].as_u64().unwrap_or(1000);
     let mto = cfg["m"].as_u64().unwrap_or(2000);
@@ -357,7 +364,11 @@ async fn run_case(case: Value) -> Value {
             }
             "tick" => {
                 now += op[1].as_i64().unwrap_or(0);
-                clock::set(now);
+                if real {
+                    actix_rt::time::sleep(std::time::Duration::from_millis(op[1].as_u64().unwrap_or(0))).await;
+                } else {
+                    clock::set(now);
+                }
                 json!("ok")
             }
             "check" => match send(&addr, NamingCmd::PeekListenerTimeout).await {
@@ -584,7 +595,7 @@ async fn run_case(case: Value) -> Value {
         times.insert(now as u64);
         times.insert(now as u64 + sto);
         times.insert(now as u64 + mto);
-        let st = if dump_all || ix + 1 == nops {
+        let st = if !dump_none && (dump_all || ix + 1 == nops) {
             let ts: Vec<u64> = times.iter().cloned().collect();
             match addr.send(VerifNamingReq::Dump(ts)).await {
                 Ok(Ok(d)) => dump_num(&d),
